@@ -683,10 +683,10 @@ namespace detail {
 
         };
 
-        template <class Func, class T = boost::fusion::vector0<>>
+        template <class Func, class T = boost::fusion::vector0<>, std::size_t From = 0>
         constexpr auto parse_flags(Func stt, auto state_name, T vec = T{})
         {
-            constexpr auto flag_pos = stt().find("flag");
+            constexpr auto flag_pos = stt().find("flag", From);
 
             if constexpr (flag_pos != std::string::npos)
             {          
@@ -694,8 +694,17 @@ namespace detail {
                 constexpr auto endl_after_flag_pos = stt().find("\n", flag_pos);
                 constexpr auto col_pos = stt().rfind(":",flag_pos);
                 constexpr auto endl_before_flag_pos = stt().rfind("\n", flag_pos);
+                // "flag" is the keyword only as the first word behind the ':' of its line, not inside a name
+                constexpr bool is_keyword =
+                    col_pos != std::string::npos &&
+                    (endl_before_flag_pos == std::string::npos || col_pos > endl_before_flag_pos) &&
+                    cleanup_token(stt().substr(col_pos + 1, flag_pos - (col_pos + 1))).empty();
 
-                if constexpr (endl_after_flag_pos != std::string::npos)
+                if constexpr (!is_keyword)
+                {
+                    return parse_flags<Func, T, flag_pos + 4>(stt, state_name, vec);
+                }
+                else if constexpr (endl_after_flag_pos != std::string::npos)
                 {
                     // the name start from end of prev line+1 to :
                     if constexpr (cleanup_token(stt().substr(endl_before_flag_pos+1,col_pos- (endl_before_flag_pos+1))) == state_name())
@@ -769,14 +778,27 @@ namespace detail {
         }
 
 
-        template <class Func, class T = boost::fusion::vector0<>>
+        template <class Func, class T = boost::fusion::vector0<>, std::size_t From = 0>
         constexpr auto parse_state_actions(Func stt, auto state_name, auto tag_text, T vec = T{})
         {
-            constexpr auto entry_pos = stt().find(std::string_view(tag_text()));
+            constexpr auto entry_pos = stt().find(std::string_view(tag_text()), From);
             constexpr auto tag_size = std::string_view(tag_text()).length();
 
             if constexpr (entry_pos != std::string::npos)
             {
+                // the tag is the keyword only as the first word behind the ':' of its line, not inside a name
+                constexpr auto tag_col_pos = stt().rfind(":", entry_pos);
+                constexpr auto tag_endl_before_pos = stt().rfind("\n", entry_pos);
+                constexpr bool is_keyword =
+                    tag_col_pos != std::string::npos &&
+                    (tag_endl_before_pos == std::string::npos || tag_col_pos > tag_endl_before_pos) &&
+                    cleanup_token(stt().substr(tag_col_pos + 1, entry_pos - (tag_col_pos + 1))).empty();
+                if constexpr (!is_keyword)
+                {
+                    return parse_state_actions<Func, T, entry_pos + tag_size>(stt, state_name, tag_text, vec);
+                }
+                else
+                {
                 // we need to handle an entry
                 constexpr auto endl_after_entry_pos = stt().find("\n", entry_pos);
                 constexpr auto bracket_beg_after_entry_pos = stt().find("[", entry_pos);
@@ -891,6 +913,7 @@ namespace detail {
                     {
                         return vec;
                     }
+                }
                 }
             }
             else
